@@ -161,3 +161,13 @@ package report
 //@   ensures forwarded_once: calls("writer.Write") == 1 && callarg("writer.Write", 0) == header && callarg("writer.Write", 1) == payload && callarg("writer.Write", 2) == a
 //@   ensures result_passed: result0 == callres("writer.Write", 0) && result1 == callres("writer.Write", 1)
 //@   ensures accounted_once: calls("processRTP") == 1
+//@
+//@ # the receiver's RTCP reader: transparent; every packet of a compound is looked at (a sender report for an
+//@ # unbound SSRC does not stop the others from being processed)
+//@ func (*ReceiverInterceptor).BindRTCPReader$1
+//@   modifies *
+//@   ensures read_once: calls("reader.Read") == 1 && callarg("reader.Read", 0) == b && callarg("reader.Read", 1) == a
+//@   ensures read_error_returned: callres("reader.Read", 2) != nil ==> result0 == 0 && result2 == callres("reader.Read", 2)
+//@   ensures same_length: result2 == nil ==> result0 == callres("reader.Read", 0)
+//@   loop 1 opt nobreak
+//@   loop 1 opt noautoframe
